@@ -55,7 +55,10 @@ prop('C09',
      'rational-function normal form with exp/sqrt atoms, piecewise on the three orderings of r and sigma) and '
      'compared with the published relation (spec/closures.py); the core branch, the weak-coupling expansion '
      '(symbolic derivative at the origin), pointwise structure, input purity (heap cells with identity: no in-place '
-     'write to r, gamma, potential; result not an alias) and the alias classes are decided from the source.',
+     'write to r, gamma, potential; result not an alias) and the alias classes are decided from the source; every data '
+     'region of a closure that branches on gamma/u/r (np.minimum, np.clip, r>0) is compared with the reference; two-call '
+     'histories (another potential, sigma and gamma; a result handed back as gamma) must reproduce a fresh closure and '
+     'leave earlier results untouched (R09.h).',
      'floating-point overflow for huge gamma; that numpy evaluates the expression as written (trusted base A2).',
      ['closure.potential holds u/kT and closure.sigma the contact distance of the same pair (decided under C16/C03)'])
 
@@ -68,7 +71,9 @@ prop('C10',
      'super().calculate followed through the MRO) for every flag valuation (rcut None/given, shift); the piecewise '
      'term is compared region by region with the documented u(r) (spec/potentials.py); cut/shift continuity by '
      'substitution r:=rcut; the WCA perfect-square certificate; purity/repeatability on a heap with identity; and the '
-     'contact rule (a core mask must not compare the floating-point grid with sigma exactly).',
+     'contact rule (a core mask must not compare the floating-point grid with sigma exactly); evaluation histories '
+     '(sigma re-assigned, another grid before, returned array edited) must reproduce a fresh potential (R10.h); result '
+     'buffers allocated with the dtype of r are reported (integer grids truncate).',
      'floating-point evaluation error of the formulas; sigma defaulting from the diameters is decided under C16 (R10.s).',
      ['epsilon >= 0 for the WCA non-negativity certificate'])
 
@@ -125,7 +130,9 @@ prop('C13',
      'self.data and return self; in-place/out-of-place siblings must denote the same term; the space guard is '
      'evaluated on all 9 space pairs and must refuse exactly Real x Fourier before any write; the real '
      '__setitem__/__getitem__ are interpreted for a==b and a!=b (mirrored store, view getter, KeyError->ValueError at '
-     'all four look-ups); iterpairs predicate truth table; IdentityMatrixArray construction.',
+     'all four look-ups); iterpairs decided by executing the real generator for rank 1..4; IdentityMatrixArray '
+     'construction; two successive out-of-place calls per member and per receiver class must give independent results '
+     'with no retained buffer (R13.h).',
      'numerical conditioning of linalg.inv (A.dot(A.invert()) == I only to rounding); numpy broadcasting shape errors.')
 
 
@@ -140,7 +147,10 @@ prop('C14',
      'that check raises ValueError exactly on a None entry while visiting every unordered pair, the iterpairs '
      'predicate truth tables over (i<j,i==j,i>j) for all four flag valuations (lambdas evaluated abstractly) and '
      'type-list order, apply(inplace) frame condition (abstract interpretation with symbolic pair labels), listify on '
-     'the four argument kinds, ValueTable setter/getter/iteration, and the export guards.',
+     'the four argument kinds, ValueTable setter/getter/iteration, and the export guards.  Since the build phase the '
+     'deciding rules are abstract executions of the real classes on a table over four concrete labels with opaque '
+     'values (pv/rules/tables_sem.py: data-independence argument); the shape-based rules only confirm when a rewritten '
+     'method cannot be executed.',
      'nothing behavioural beyond Python dict semantics (trusted); histories are covered because each rule is an '
      'invariant of a single method.', trusted=('A1',))
 
@@ -166,7 +176,9 @@ prop('C12',
      'facts len(values)==len(k) and, when a k column exists, len(k column)==len(k) and np.allclose(k column, k) with '
      'default tolerances; the returned term must be the stored array / second file column itself (no arithmetic, '
      'slicing or re-ordering); the constructor must store fresh copies (np.array, not np.asarray/assignment) and '
-     'calculate must write nothing; PairTable.exportToMatrixArray refuses unequal lengths before building the array.',
+     'calculate must write nothing; the same facts are required for a second evaluation on another grid (a cached table '
+     'must not skip the guards); PairTable.exportToMatrixArray is executed abstractly on equal / unequal / unset tables; '
+     'PRISM.__init__ must route the evaluated omega table through that guard (R12.w).',
      'np.loadtxt / np.allclose behaviour (trusted); asserts under python -O (A3); rejection of a wrong-length one-column '
      'file in a rank-1 system happens in numpy shape checking, not in pyPRISM code.', trusted=('A1', 'A2', 'A3'))
 
@@ -195,7 +207,8 @@ prop('C06',
      'attributes nobody reads; the Fourier content of totalCorr/directCorr/omega after the call equals the content '
      'before; (typestate) no combination raises and all give the same canonical result; (freshness) results share no '
      'memory with the object. Since each call preserves content and its result depends on content only, every finite '
-     'call history gives the results of a fresh object.',
+     'call history gives the results of a fresh object; called again after a re-solve (new arrays / new contents) every '
+     'function returns the value of a fresh object (R06.h); a second solve leaves exactly the state of a first one (R01.f).',
      'rounding introduced by repeated forward/backward transforms (C07 bounds it to rounding error); the numerical '
      'effect of re-solving.')
 
@@ -211,7 +224,9 @@ prop('C16',
      'caller\'s System is a violation, the PRISM object must share no mutable cell with it (deep copy), and the wiring '
      'facts are compared as terms: closure[a,b].sigma = diameter[a,b], closure[a,b].potential = potential[a,b](r)/kT with '
      'sigma defaulted only when None, omega = table evaluated on k, exported in Fourier space, times site density, for '
-     'every unordered pair.',
+     'every unordered pair; attributes System.__init__ derives from kT are taken over and kT is re-assigned afterwards '
+     '(a stale inverse temperature is visible as kT0); createPRISM/solve are executed with check and the PRISM '
+     'constructor replaced by recording stubs (check passes / check raises).',
      'equality of the *solved numbers* of a swept and a fresh System (follows from these frame conditions only up to '
      'solver determinism).')
 
@@ -251,7 +266,9 @@ prop('C11',
      'kernel shape sin(Bk)/(Bk)exp(-Ak^2); every constructing path of DiscreteKoyama.__init__ carries l>sigma/2 and '
      'lp>=lp_min (paths enumerated, refusals are ValueError); scalar-only math.* never fed the ndarray that '
      'scipy.optimize.root hands to its callback; NFJC integrates over the x axis only; every numpy/scipy/math name used '
-     'exists in the pinned libraries; aliases.',
+     'exists in the pinned libraries; aliases; three two-call histories per model (other grid before, same k buffer re-used '
+     'with new contents, returned array edited) must give the value of a fresh model, and no branch of calculate may '
+     'depend on a reduction over the whole k array (R11.h, R11.e).',
      'finiteness at the small k of a real grid (catastrophic cancellation in (1-E)^2 is a floating-point fact), NFJC '
      'quadrature accuracy and its nan when k hits an x node, the Koyama moment formulas r2/r4 (no reference offline).',
      ['|E| <= 1 for E=exp(-x^2) and E=sin(x)/x; the bounds omega<=N, omega->N, omega->1 follow from the certified sum form'])
@@ -270,7 +287,9 @@ prop('C17',
      'non-molar retry in toKelvin); pi, N_A, k_B stay symbolic so that the returned magnitude can be compared with the '
      'textbook formula as a term; every method must return the result of a final .to(<plain unit>) (pint keeps pi, N_A, '
      'k_B as units, so an unconverted product has the wrong magnitude); linear/affine in the argument; every unit '
-     'literal in the module must exist in the registry.',
+     'literal in the module must exist in the registry; two converters must not share a registry (R17.r); characteristic '
+     'values must reach the registry losslessly (R17.c); no in-place operator on a magnitude that still has the dtype '
+     'or the memory of the argument (R17.l).',
      'pint conversion arithmetic itself (trusted); elementwise behaviour on arrays follows from magnitudes being '
      'products/quotients only (no reductions) but numpy broadcasting is not modelled.',
      trusted=('A1', 'A4', 'A5'))
